@@ -56,7 +56,16 @@ def check(prop, cfg, results):
         if r.get("status") not in ("ok", "race") or not r.get("hooks"):
             continue
         for d in keepalive_decisions(r["hooks"]):
-            if abs(d[1] - d[2]) > 2:      # the hook reads the clock a few microseconds before the decision does
+            # the hook reads the clock BEFORE the decision does (normally microseconds, under load possibly milliseconds: the hook
+            # itself takes the log's mutex). So the real elapsed time is >= the logged one: "logged elapsed > timeout and the code
+            # said ok" is a definite disagreement; "logged elapsed <= timeout and the code said fail" is one only when the gap to
+            # the bound is far beyond any plausible descheduling.
+            last, el, to, outcome = d
+            if last != 0 and el > to and outcome == "ok":
+                kdec.append((r, d))
+            elif outcome == "fail" and (last == 0 or to - el > 50):
+                kdec.append((r, d))
+            elif outcome == "ok" and (last == 0 or to - el > 2):
                 kdec.append((r, d))
         # several clients in one process (cycle scenarios) interleave their logs: conformance needs one client
         if r["name"].startswith("c16/cycles") or r["name"] == "c13/early-push":
